@@ -316,6 +316,15 @@ func c18Registry(x *core.Ctx, schema *ast.Schema, fresh func() *ast.QueryDocumen
 	if !cmp("after-ReplaceRule-unknown", append(append([]validator.Rule{}, rest...), victim)) {
 		return
 	}
+	// the same name registered twice in a row is two entries; removing the name removes both
+	validator.AddRule(victim.Name, victim.RuleFunc)
+	if !cmp("after-AddRule-twice", append(append([]validator.Rule{}, rest...), victim, victim)) {
+		return
+	}
+	validator.RemoveRule(victim.Name)
+	if !cmp("after-RemoveRule-of-a-name-registered-twice", rest) {
+		return
+	}
 	restore()
 	cmp("after-restore", c18Standard)
 }
